@@ -80,6 +80,29 @@ func (p *Path) ecDecode(kind string, bs Slice) (*Term, *Term) {
 		}
 		return tb.Int(0), tb.False
 	}
+	if kind == "sc" {
+		// a little-endian scalar whose upper 16 bytes are zero is below the group order: always
+		// canonical, and its value is the integer itself (blinding factors of the batch verifier)
+		small := true
+		for _, b := range bs[16:] {
+			if t := b.(*Term); !t.IsConst() || t.val.Sign() != 0 {
+				small = false
+			}
+		}
+		if small {
+			le := make([]*Term, 16)
+			for i := 0; i < 16; i++ {
+				le[i] = bs[15-i].(*Term)
+			}
+			// (an injective uninterpreted value rather than bv2int: mixing bit-vectors into the
+			// polynomial identities makes them undecidable in practice)
+			c := tb.Concat(le...)
+			v := tb.App("sc_small", SInt, c)
+			p.assertPC(tb.Eq(tb.App("sc_small_inv", SBV(128), v), c))
+			p.assertPC(tb.ILe(tb.Int(0), v))
+			return v, tb.True
+		}
+	}
 	x := tb.App(kind+"_dec", SInt, cat)
 	valid := tb.App(kind+"_valid", SBool, cat)
 	p.assertPC(tb.Implies(valid, tb.Eq(tb.App(kind+"_enc", SBV(256), x), cat)))
